@@ -116,8 +116,14 @@ class NodeWorld:
         self.requests = []          # (app, message) in handler-invocation order
         self.timer_checks = []      # (now, conn ident) for every _check_timers call
         ncfg = cfg.get("node", {})
-        node = Node(ncfg.get("host", NODE_HOST), ncfg.get("realm", NODE_REALM),
-                    ip_addresses=list(ncfg.get("ips", ["10.0.0.1"])), tcp_port=ncfg.get("tcp_port", 3868))
+        # "transport": "sctp" = the node listens on SCTP only and every configured peer is an SCTP peer (fake `sctp` module)
+        self.transport = ncfg.get("transport", "tcp")
+        if self.transport == "sctp":
+            node = Node(ncfg.get("host", NODE_HOST), ncfg.get("realm", NODE_REALM),
+                        ip_addresses=list(ncfg.get("ips", ["10.0.0.1"])), sctp_port=ncfg.get("tcp_port", 3868))
+        else:
+            node = Node(ncfg.get("host", NODE_HOST), ncfg.get("realm", NODE_REALM),
+                        ip_addresses=list(ncfg.get("ips", ["10.0.0.1"])), tcp_port=ncfg.get("tcp_port", 3868))
         for attr, key in (("cer_timeout", "cer_timeout"), ("cea_timeout", "cea_timeout"),
                           ("idle_timeout", "idle_timeout"), ("dwa_timeout", "dwa_timeout"),
                           ("wakeup_interval", "wakeup"), ("retransmit_queue_size", "retransmit_queue_size")):
@@ -127,7 +133,7 @@ class NodeWorld:
         self.world.probe = lambda: bool(getattr(node, "_stopping", False))
         self.peers = []
         for pc in cfg.get("peers", []):
-            uri = f"aaa://{pc['name']}"
+            uri = f"aaa://{pc['name']}" + (";transport=sctp" if pc.get("transport", self.transport) == "sctp" else "")
             p = node.add_peer(uri, pc.get("realm", NODE_REALM), ip_addresses=list(pc.get("ips", [])),
                               is_persistent=pc.get("persistent", False), is_default=pc.get("default", False))
             for k in ("cer_timeout", "cea_timeout", "idle_timeout", "dwa_timeout", "reconnect_wait",
@@ -202,7 +208,7 @@ class NodeWorld:
     def accept(self, ip="10.0.0.2", port=5555, run=True):
         if not self.world.listeners:
             raise sk.HarnessError("node has no listening socket")
-        cs = sk.FakeSocket()
+        cs = type(self.world.listeners[0])()      # an SCTP listener hands out SCTP sockets
         cs.peer_name = (ip, port)
         cs.kind = "accepted"
         cs.in_backlog = True        # holds no descriptor number of the node's process until accept() returns it
